@@ -229,3 +229,81 @@ func ZZ_C16_flush_error() {
 		}
 	}
 }
+
+// ZZ_C16_staging: staging levels of a pipelined transaction. A write made inside a level that is
+// discarded is gone for every read path (get, batch get, and a get after a batch get), a write of a
+// released level stays; the value below the level - buffered, flushed or committed before the
+// transaction - is what the reads return afterwards.
+func ZZ_C16_staging() {
+	s, cl := zzNewStore([][]byte{[]byte("m")}, 0)
+	defer s.close()
+	k := zzC16Pool[zzChoice("key", len(zzC16Pool))]
+	ctx := context.Background()
+	var below []byte // what a read must return once the level is discarded (nil = not found)
+	base := zzChoice("below", 4) // nothing, committed before, buffered, flushed
+	if base == 1 {
+		cl.key(k).writes = append(cl.key(k).writes, zzWrite{startTS: 10, commitTS: 20, op: kvrpcpb.Op_Put, value: []byte("v0")})
+		below = []byte("v0")
+	}
+	txn := zzBeginPipelined(s)
+	buf := txn.GetMemBuffer()
+	if base >= 2 {
+		below = append(zzBytesN("vb", 1), 'b')
+		zzAssume(txn.Set(k, below) == nil)
+		if base == 3 {
+			_, err := buf.Flush(true)
+			zzAssert(err == nil && buf.FlushWait() == nil, "c16.staging.flush-below")
+		}
+	}
+	h := buf.Staging()
+	v := append(zzBytesN("vs", 1), 's')
+	del := zzBool("delete-in-level")
+	if del {
+		zzAssume(txn.Delete(k) == nil)
+	} else {
+		zzAssume(txn.Set(k, v) == nil)
+	}
+	// reads inside the level see its write; the read path used here must not outlive the level
+	switch zzChoice("read-in-level", 3) {
+	case 1:
+		got, err := txn.Get(ctx, k)
+		if del {
+			zzAssert(err != nil, "c16.staging.get-in-level-sees-delete")
+		} else {
+			zzAssert(err == nil && bytes.Equal(got.Value, v), "c16.staging.get-in-level")
+		}
+	case 2:
+		m, err := txn.BatchGet(ctx, [][]byte{k})
+		e, in := m[string(k)]
+		if del {
+			zzAssert(err == nil && !in, "c16.staging.batchget-in-level-sees-delete")
+		} else {
+			zzAssert(err == nil && in && bytes.Equal(e.Value, v), "c16.staging.batchget-in-level")
+		}
+	}
+	want := below
+	if zzBool("release") {
+		buf.Release(h)
+		want = v
+		if del {
+			want = nil
+		}
+	} else {
+		buf.Cleanup(h)
+	}
+	got, err := txn.Get(ctx, k)
+	if want == nil {
+		zzAssert(err != nil, "c16.staging.get-after-level-not-found")
+	} else {
+		zzAssert(err == nil && bytes.Equal(got.Value, want), "c16.staging.get-after-level")
+	}
+	m, err := txn.BatchGet(ctx, [][]byte{k})
+	e, in := m[string(k)]
+	if want == nil {
+		zzAssert(err == nil && !in, "c16.staging.batchget-after-level-not-found")
+	} else {
+		zzAssert(err == nil && in && bytes.Equal(e.Value, want), "c16.staging.batchget-after-level")
+	}
+	_ = txn.Rollback()
+	s.wg.Wait()
+}
